@@ -300,4 +300,4 @@ def selftest():
 
 def subchecks(tier, seed):
     q = tier == "quick"
-    return [SubCheck("integrate", body_integrate, strategy=_strategy(), examples=10000 if q else 150000, cases=_pinned(), shards=16 if q else 64)]
+    return [SubCheck("integrate", body_integrate, strategy=_strategy(), examples=10000 if q else 300000, cases=_pinned(), shards=16 if q else 64)]
